@@ -49,35 +49,18 @@ Definition covered (o : string * string * string) : bool :=
 Definition scalar_cls (c : cls) : bool :=
   match c with CInt _ | CFloat _ | CBool _ | CNone | CStr _ => true | _ => false end.
 
-Lemma defaults_coherent_all : forallb option_coherent all_options = true.
-Proof. vm_compute. reflexivity. Qed.
-
-Lemma defaults_coherent : forall sec opt raw name secs ps d,
+(* lifting of the finite check (decided by vm_compute in Properties/C20.v, over the tables of this run) *)
+Lemma defaults_coherent_of_check : forallb option_coherent all_options = true ->
+  forall sec opt raw name secs ps d,
   In (sec, opt, raw) all_options -> In (name, (secs, ps)) entry_points ->
   existsb (String.eqb sec) secs = true -> alookup opt ps = Some d ->
   dval_matches d (expected sec opt raw) = true.
 Proof.
-  intros sec opt raw name secs ps d Ho He Hs Hd.
-  pose proof defaults_coherent_all as H. rewrite forallb_forall in H. specialize (H _ Ho).
+  intros H sec opt raw name secs ps d Ho He Hs Hd.
+  rewrite forallb_forall in H. specialize (H _ Ho).
   unfold option_coherent in H. rewrite forallb_forall in H. specialize (H _ He).
   unfold entry_coherent in H. rewrite Hs, Hd in H. exact H.
 Qed.
 
-(* the model's file parser reads the packaged file exactly as Python's configparser does *)
-Lemma defaults_file_parsed : parse_file defaults_cfg_text = Ok defaults_cfg_parsed.
-Proof. vm_compute. reflexivity. Qed.
-
-Lemma defaults_sections : map fst defaults_cfg_parsed = ["preprocessing"; "conformer_generation"; "fingerprinting"]%string.
-Proof. vm_compute. reflexivity. Qed.
-
-(* every raw value of the file is a scalar the model classifies *)
-Lemma defaults_classified : forallb (fun o => scalar_cls (classify (snd o))) all_options = true.
-Proof. vm_compute. reflexivity. Qed.
-
-(* options without a same-named parameter in any entry point of their section *)
-Lemma defaults_orphans :
-  map (fun o => (fst (fst o), snd (fst o))) (filter (fun o => negb (covered o)) all_options) = [("preprocessing", "protonate")]%string.
-Proof. vm_compute. reflexivity. Qed.
-
-Lemma int_limit_current : py_int_max_str_digits = max_str_digits.
-Proof. vm_compute. reflexivity. Qed.
+Definition orphans : list (string * string) :=
+  map (fun o => (fst (fst o), snd (fst o))) (filter (fun o => negb (covered o)) all_options).
